@@ -75,7 +75,7 @@ func worlds() []*wm.World {
 // LongName is a 72-character workload name.
 var LongName = "a123456789-b123456789-c123456789-d123456789-e123456789-f123456789-g12345678"
 
-var focuses = []string{"representative-pod", "ns1/representative-pod", "ns1-w", "ns1xw", "ns1w", "payments.v2", "ns1/payments.v2", LongName, "ns1/" + LongName, "1w", "ns-2.x/1w", "w", "ns1/w", "ns2/w", "z", "ns1/z", "ns2/z", "other", "ns3/other", "nosuch", "ns1/nosuch", "ingress-controller", "ns2/ingress-controller", "w[Deployment]", "ns1/w[Deployment]", "ns1", "W"}
+var focuses = []string{"representative-pod", "ns1/representative-pod", "ns1-w", "ns1xw", "ns1w", "payments.v2", "ns1/payments.v2", LongName, "ns1/" + LongName, "1w", "ns-2.x/1w", "w", "ns1/w", "ns2/w", "z", "ns1/z", "ns2/z", "other", "ns3/other", "nosuch", "ns1/nosuch", "ingress-controller", "ns2/ingress-controller", "w[Deployment]", "ns1/w[Deployment]", "ns1", "W", "/"}
 
 type Case struct {
 	WI       int
@@ -279,7 +279,7 @@ func expoLines(pl parse.List, focus string, filter bool) string {
 }
 
 func Run(r *fw.Run) {
-	r.Rule = "11 worlds (one where the {ingress-controller} lines are the whole report; names with dots / longer than 63 characters / starting with a digit, a name shared by workloads of two namespaces and of two kinds, a workload named ingress-controller, ipBlock policies in namespaces without a matching workload, Service + Ingress, ANP) x 25 focus strings (among them namespace and name joined by a character other than '/') (names, namespace/names, absent names, ingress-controller, strings with [Kind], a namespace name, wrong case) x exposure on/off; the focused API relation must equal the filter of the unfocused relation (same keys incl. IP ranges, same connections) and each of the five formats must parse back to it; with exposure the exposure sections of the focused output must equal, format by format, the lines of the unfocused exposure sections whose workload matches (worlds of the exposure scopes give a focus workload several representative peers); non-trivial = the filter keeps at least one entry; distinct = distinct (world, focus) reports"
+	r.Rule = "11 worlds (one where the {ingress-controller} lines are the whole report; names with dots / longer than 63 characters / starting with a digit, a name shared by workloads of two namespaces and of two kinds, a workload named ingress-controller, ipBlock policies in namespaces without a matching workload, Service + Ingress, ANP) x 26 focus strings (one of them just a slash) (among them namespace and name joined by a character other than '/') (names, namespace/names, absent names, ingress-controller, strings with [Kind], a namespace name, wrong case) x exposure on/off; the focused API relation must equal the filter of the unfocused relation (same keys incl. IP ranges, same connections) and each of the five formats must parse back to it; with exposure the exposure sections of the focused output must equal, format by format, the lines of the unfocused exposure sections whose workload matches (worlds of the exposure scopes give a focus workload several representative peers); non-trivial = the filter keeps at least one entry; distinct = distinct (world, focus) reports"
 	r.Assume = []string{"focus strings are syntactically valid workload names (name or namespace/name, both parts non-empty); the degenerate '/' is excluded (it matches every IP peer)", "uses the C09 parsers"}
 	if r.Quick() {
 		r.SetBudget(300 * time.Second)
